@@ -84,6 +84,18 @@ def cases(tier, seed):
     for xs in (itertools.product(eqdom[:12], repeat=3) if tier != 'quick' else [tuple(rng.choice(eqdom) for _ in range(3)) for _ in range(400)]):
         add('$distinct(a)', {'a': list(xs)}, ('distinct-eq',))
         add('$distinct([a, a])', {'a': list(xs)}, ('distinct-eq',))
+    # literal empty / singleton / nested-empty arrays in every argument position (a path that selects an empty array is
+    # 'no value', a literal [] is an empty array: only the literal reaches the functions)
+    lits = ['[]', '[[]]', '[1]', '[1,2]', 'nothing', '$filter([1], function($v){false})', '[[], 1]', '5']
+    fns2 = ['$zip(%s, %s)', '$zip(%s, %s, [7,8,9])', '$zip([7,8,9], %s, %s)', '$append(%s, %s)', '$append($append(%s, %s), [])', '$distinct($append(%s, %s))', '[%s, %s]', '$count($append(%s, %s))',
+            '$reduce($append(%s, %s), function($p,$q){$p})', '$map(%s, function($v){%s})', '$filter(%s, function($v){$count(%s) > 0})', '$sort($append(%s, %s))', '$reverse($append(%s, %s))', '$sum($append(%s, %s))',
+            '$max($append(%s, %s))', '$average($append(%s, %s))', '$shuffle($append(%s, %s)) ~> $count()', '$single($append(%s, %s), function($v){true})', '$join($append(%s, %s))', '$zip(%s) ~> $append(%s)']
+    for f in fns2:
+        for x, y in itertools.product(lits, lits):
+            add(f % (x, y), {}, ('empty-literals',))
+    for f in ['$zip(%s)', '$sort(%s)', '$reverse(%s)', '$distinct(%s)', '$count($shuffle(%s))', '$count(%s)', '$sum(%s)', '$max(%s)', '$min(%s)', '$average(%s)', '$append(%s, 1)', '$append(1, %s)', '$join(%s)', '$string(%s)', '$zip(%s, %s, %s)']:
+        for x in lits:
+            add(f.replace('%s', x), {}, ('empty-literals',))
     # scalars in array position
     for v in [5, 'x', True, {'a': 1}]:
         for e in unary:
